@@ -216,6 +216,9 @@ enum Acct {
 	Acct1Active,
 	/// default is active at initiation, acct1 named as source; acct1 made active before finalization
 	Acct1Src,
+	/// acct1 named as source, default active from initiation through finalization: finalization
+	/// may be refused (wrong account); if it is accepted the exported proof must still verify
+	Acct1SrcDefaultActive,
 }
 
 #[derive(Clone, Copy, Debug, PartialEq, Serialize, Deserialize)]
@@ -229,7 +232,7 @@ fn shapes(thorough: bool) -> Vec<Shape> {
 	if thorough {
 		let mut v = vec![];
 		for late in [false, true].iter() {
-			for acct in [Acct::Default, Acct::Acct1Active, Acct::Acct1Src].iter() {
+			for acct in [Acct::Default, Acct::Acct1Active, Acct::Acct1Src, Acct::Acct1SrcDefaultActive].iter() {
 				for amt in [Amt::Small, Amt::Exact, Amt::Split2].iter() {
 					v.push(Shape { amt: *amt, acct: *acct, late: *late });
 				}
@@ -243,6 +246,7 @@ fn shapes(thorough: bool) -> Vec<Shape> {
 			Shape { amt: Amt::Split2, acct: Acct::Default, late: false },
 			Shape { amt: Amt::Small, acct: Acct::Acct1Active, late: false },
 			Shape { amt: Amt::Split2, acct: Acct::Acct1Src, late: false },
+			Shape { amt: Amt::Small, acct: Acct::Acct1SrcDefaultActive, late: false },
 			Shape { amt: Amt::Exact, acct: Acct::Acct1Active, late: false },
 			Shape { amt: Amt::Small, acct: Acct::Default, late: true },
 			Shape { amt: Amt::Split2, acct: Acct::Acct1Active, late: true },
@@ -315,7 +319,7 @@ fn acct_no(s: &Shape) -> u32 {
 }
 
 fn activate(w: &World, s: &Shape) {
-	if s.acct != Acct::Default {
+	if s.acct != Acct::Default && s.acct != Acct::Acct1SrcDefaultActive {
 		w.w("A").set_account("acct1").unwrap();
 	}
 }
@@ -341,7 +345,7 @@ fn prepare(dir: &str, base: &Snapshot, s: &Shape) -> Result<Snapshot, String> {
 			args.num_change_outputs = 2;
 			args.selection_strategy_is_use_all = true;
 		}
-		if s.acct == Acct::Acct1Src {
+		if s.acct == Acct::Acct1Src || s.acct == Acct::Acct1SrcDefaultActive {
 			args.src_acct_name = Some("acct1".to_owned());
 		}
 		args.payment_proof_recipient_address = Some(SlatepackAddress::new(&addr_pk("B", 0)));
@@ -424,6 +428,7 @@ fn run_finalize_inner(w: &World, s: &Shape, alt: Option<PAlt>) -> Result<String,
 			)),
 		},
 		Ok(Err(e)) => match alt {
+			None if s.acct == Acct::Acct1SrcDefaultActive => Ok(format!("honest:refused-under-other-account:{}", err_class(&e))),
 			None => Err((format!("C11/honest-refused/{}", lock_mode(s)), format!("owner::finalize_tx refused the unaltered reply of {:?}: {}", s, e))),
 			Some(_) => Ok(format!("refused:{}", err_class(&e))),
 		},
@@ -549,7 +554,18 @@ fn run_export_inner(w: &World, s: &Shape, only: Option<EAlt>) -> Result<ExportOu
 	let reply = slate_from_json(&p.s2);
 	let id: Uuid = reply.id;
 	let mut out = ExportOut { labels: vec![], problems: vec![], observations: vec![], sample: Value::Null };
-	let s3 = a.finalize(&reply).map_err(|e| mach(format!("honest finalize failed: {}", e)))?;
+	let s3 = match a.finalize(&reply) {
+		Ok(s3) => s3,
+		Err(e) if s.acct == Acct::Acct1SrcDefaultActive => {
+			out.labels.push(format!("finalize-under-other-account:refused:{}", err_class(&e)));
+			return Ok(out);
+		}
+		Err(e) => return Err(mach(format!("honest finalize failed: {}", e))),
+	};
+	if s.acct == Acct::Acct1SrcDefaultActive {
+		// the log entry lives in the source account: everything after finalization happens there
+		a.set_account("acct1").unwrap();
+	}
 	let get = |refresh: bool| catch(|| owner::retrieve_payment_proof(a.inst.clone(), a.mask(), &None, refresh, None, Some(id)));
 	let panic_key = |what: &str| {
 		let site = take_last_panic().map(|x| panic_site(&x.1)).unwrap_or_default();
@@ -873,8 +889,9 @@ pub fn run(_args: &[String]) -> i32 {
 	rep.assume("'kernel not on chain' is exercised before posting and while the transaction is only in the pool; a fork without the kernel is not built here");
 	let has_findings = !rep.findings.lock().unwrap().is_empty();
 	if mach.is_none() && !has_findings {
-		if honest_ok != shs.len() as u64 {
-			mach = Some(format!("vacuity guard: {} of {} honest replies finalised", honest_ok, shs.len()));
+		let must_finalize = shs.iter().filter(|x| x.acct != Acct::Acct1SrcDefaultActive).count() as u64;
+		if honest_ok < must_finalize {
+			mach = Some(format!("vacuity guard: {} of {} honest replies finalised", honest_ok, must_finalize));
 		} else if refused < (shs.len() as u64) * 5 || verify_refused < (shs.len() as u64) * 20 || verify_honest < shs.len() as u64 {
 			mach = Some(format!("vacuity guard: refused replies {} refused proofs {} honest verifications {}", refused, verify_refused, verify_honest));
 		}
